@@ -111,3 +111,46 @@ pub async fn udp_reader_error(_args: &[&str]) -> String {
         Ok(Ok(Some(fr))) => format!("OK reader=frame len={}", fr.body().len()),
     }
 }
+
+// socks_select <required 0|1> <methods hex>: PasswordAuth::select_method
+pub fn socks_select(args: &[&str]) -> String {
+    use crate::common::socks::{PasswordAuth, SocksAuthServer};
+    let a = PasswordAuth { required: args[0] == "1" };
+    match a.select_method(&unhex(args[1])) {
+        Some(m) => format!("OK {}", m),
+        None => "OK none".into(),
+    }
+}
+
+// auth_check <required 0|1> <users u:p,.. (hex)> <creds u:p (hex) | ->: AuthData::check without external command
+pub async fn auth_check(args: &[&str]) -> String {
+    fn pair(s: &str) -> Option<(String, String)> {
+        let mut it = s.split(':');
+        let u = String::from_utf8(unhex(it.next()?)).ok()?;
+        let p = String::from_utf8(unhex(it.next()?)).ok()?;
+        Some((u, p))
+    }
+    let mut users = vec![];
+    if args[1] != "-" {
+        for u in args[1].split(',') {
+            match pair(u) {
+                Some((a, b)) => users.push(serde_json::json!({"username": a, "password": b})),
+                None => return "OPAQUE".into(),
+            }
+        }
+    }
+    let doc = serde_json::json!({"required": args[0] == "1", "users": users});
+    let data: crate::common::auth::AuthData = match serde_json::from_value(doc) {
+        Ok(d) => d,
+        Err(e) => return format!("ERR {}", e),
+    };
+    let key = if args[2] == "-" {
+        None
+    } else {
+        match pair(args[2]) {
+            Some(k) => Some(k),
+            None => return "OPAQUE".into(),
+        }
+    };
+    format!("OK {}", data.check(&key).await)
+}
